@@ -9,11 +9,26 @@ definitions (SemaModel/Generated/BitDist.lean), the kernels on the model of Mode
   bq <hamming|jaccard> <thr> <x> <y> (words32)     -> words64 words64 hex32   (encode x, encode y, distance of the encodings)
   kern <x:int8s> <y:int8s>                         -> <dot> <l2>     (decimal integers; an int8 is two hex digits of value+128)
   fdot|fl2|hav …                                   -> n/a            (rounding is not modelled; oracle-only op lines, kept for replays)
+
+The FORMULA lines evaluate the symbolic trees generated from distance.go / puredist.go / product.go
+(SemaModel/Generated/Distance.lean, PQDist.lean) with hardware floats, same operation order:
+  dotd <x> <y> <k:hex32>                           -> hex32|nan      dotProductDistance with dotProductImpl(x,y) = k (the value the real implementation returned)
+  cosd <x> <y> <k:hex32>                           -> hex32|nan      cosineDistance, likewise
+  pdot <x> <y> / pl2 <x> <y>  (words32)            -> hex32|nan      the two pure Go reference loops, bit for bit
+  havf <x> <y> <real:hex32>                        -> ok | ulp=<d> model=<hex32>   haversineDistance; libm differs from Go's math: within `havUlp` = 1 float32 ulp (measured: 0)
+  pqf <NS> <K> <L> <flat:words32> <x:words32> <codes:bytes>  -> hex32|nan   table build + look-up sum of DistanceFromFloat (distFn = the pure Go euclidean loop)
+  pqp <NS> <K> <cdists:words32> <cx:bytes> <cy:bytes>        -> hex32|nan   look-up sum of DistanceFromPoint
+  bqw <hamming|jaccard> <thr|-> <x> <y> (words32) <fk:hex32>  -> hex32 hex32   the two distance closures of the binary quantiser as
+                                                    generated (which distance is used: bit distance of the encodings when a threshold is
+                                                    set, else the float distance, whose real value is fk); encode / hamming / jaccard generated
 word lists are concatenated fixed-width hex, `-` is the empty list.
 -/
 import SemaModel.Base.DriverUtil
 import SemaModel.C20.Model
 import SemaModel.Generated.BitDist
+import SemaModel.Generated.Distance
+import SemaModel.Generated.PQDist
+import SemaModel.Generated.BQDist
 namespace Sema.C20
 open Sema Sema.Gen
 
@@ -51,6 +66,24 @@ def hexW64 (l : List (BitVec 64)) : String := if l.isEmpty then "-" else String.
 def hexF32 (f : Float32) : String := hexOfNat 8 f.toBits.toNat
 def b01 (b : Bool) : String := if b then "1" else "0"
 
+def bytes8? (s : String) : Option Bytes := (wordsOfHex 2 s).map (·.map (BitVec.ofNat 8))
+def fvars (l : List (BitVec 32)) : List Go.FExpr := l.map Go.FExpr.var
+/-- float32 result as bits; every NaN is `nan` (payloads depend on operand order of commutative hardware ops) -/
+def hexF32n (f : Float32) : String := if f.isNaN then "nan" else hexF32 f
+/-- float32 patterns of one sign: distance in units in the last place -/
+def ulpDist (a b : Float32) : Nat :=
+  let k (f : Float32) : Int := if f.toBits.toNat ≥ 2 ^ 31 then -((f.toBits.toNat - 2 ^ 31 : Nat) : Int) else (f.toBits.toNat : Int)
+  (k a - k b).natAbs
+/-- stated bound for `havf`: the C library's sin / cos / asin (Lean `Float`) against Go's `math` package may differ in
+the last place of a float64; after the final `float32(..)` that is at most 1 float32 ulp.  Measured (notes/C20.md):
+0 ulp on all 22 891 pairs of a thorough run (boundary points, antipodes, close neighbours, random) -/
+def havUlp : Nat := 1
+
+def outF (o : Go.Out Go.FExpr) : String :=
+  match o with
+  | .ret e => hexF32n e.eval
+  | .outOfFuel => "out-of-fuel"
+
 def step (line : String) : String :=
   let bad := "bad-op"
   match line.trimAscii.toString.splitOn " " with
@@ -72,6 +105,45 @@ def step (line : String) : String :=
       | _, _, _ => bad
   | ["kern", x, y] => match int8s? x, int8s? y with
       | some x, some y => s!"{kernelDot Ops.int x y} {kernelL2 Ops.int x y}" | _, _ => bad
+  | ["dotd", x, y, k] => match words32? x, words32? y, words32? k with
+      | some x, some y, some [k] => hexF32n (Distance.dotProductDistance (fun _ _ => .var k) (fvars x) (fvars y)).eval | _, _, _ => bad
+  | ["cosd", x, y, k] => match words32? x, words32? y, words32? k with
+      | some x, some y, some [k] => hexF32n (Distance.cosineDistance (fun _ _ => .var k) (fvars x) (fvars y)).eval | _, _, _ => bad
+  | ["pdot", x, y] => match words32? x, words32? y with
+      | some x, some y => hexF32n (Distance.dotProductPureGo (fvars x) (fvars y)).eval | _, _ => bad
+  | ["pl2", x, y] => match words32? x, words32? y with
+      | some x, some y => hexF32n (Distance.squaredEuclideanDistancePureGo (fvars x) (fvars y)).eval | _, _ => bad
+  | ["havf", x, y, r] => match words32? x, words32? y, words32? r with
+      | some x, some y, some [r] =>
+        let m := (Distance.haversineDistance (fvars x) (fvars y)).eval
+        let real := Float32.ofBits r.toNat.toUInt32
+        if m.isNaN && real.isNaN then "ok"
+        else if !m.isNaN && !real.isNaN && ulpDist m real ≤ havUlp then "ok"
+        else s!"ulp={ulpDist m real} model={hexF32n m}"
+      | _, _, _ => bad
+  | ["pqf", ns, k, l, flat, x, codes] => match ns.toNat?, k.toNat?, l.toNat?, words32? flat, words32? x, bytes8? codes with
+      | some ns, some k, some l, some flat, some x, some codes =>
+        let pq : PQDist.productQuantizer := ⟨⟨k, ns, 0⟩, Distance.squaredEuclideanDistancePureGo, l, [], fvars flat⟩
+        match PQDist.pq_tableFromFloat pq (fvars x) with
+        | .ret table => outF (PQDist.pq_lookupFromFloat pq table ⟨[], codes⟩)
+        | .outOfFuel => "out-of-fuel"
+      | _, _, _, _, _, _ => bad
+  | ["pqp", ns, k, cd, cx, cy] => match ns.toNat?, k.toNat?, words32? cd, bytes8? cx, bytes8? cy with
+      | some ns, some k, some cd, some cx, some cy =>
+        let pq : PQDist.productQuantizer := ⟨⟨k, ns, 0⟩, fun _ _ => .lit 0, 0, fvars cd, []⟩
+        outF (PQDist.pq_lookupFromPoint pq ⟨[], cx⟩ ⟨[], cy⟩)
+      | _, _, _, _, _ => bad
+  | ["bqw", m, t, x, y, fk] => match words32? t, words32? x, words32? y, words32? fk with
+      | some t, some x, some y, some [fk] =>
+        let bit := if m == "hamming" then BitDist.hammingDistance else BitDist.jaccardDistance
+        let enc := fun (bq : BQDist.binaryQuantizer) (v : List Go.FExpr) =>
+          BitDist.binaryQuantizer_encode (bq.threshold.map fun e => match e with | .var b => b | _ => 0#32) (v.map fun e => match e with | .var b => b | _ => 0#32)
+        let bq : BQDist.binaryQuantizer := ⟨fvars t, fun _ _ => .var fk, bit⟩
+        let px : BQDist.binaryQuantizedPoint := ⟨fvars x, BitDist.binaryQuantizer_encode t x⟩
+        let py : BQDist.binaryQuantizedPoint := ⟨fvars y, BitDist.binaryQuantizer_encode t y⟩
+        let asP := fun (p : BQDist.binaryQuantizedPoint) => some p
+        s!"{hexF32n (BQDist.binaryQuantizer_DistanceFromFloat asP enc bq (fvars x) py).eval} {hexF32n (BQDist.binaryQuantizer_DistanceFromPoint asP enc bq px py).eval}"
+      | _, _, _, _ => bad
   | "fdot" :: _ => "n/a"
   | "fl2" :: _ => "n/a"
   | "hav" :: _ => "n/a"
